@@ -49,7 +49,7 @@ MESH_T = ["rectangular", "rectangular_phase_end", "triangular"]
 MESH_MZ = ["rectangular_MZ", "rectangular_symmetric"]
 MESH_COMPACT = ["triangular_compact", "rectangular_compact", "sun_compact"]
 UNITARY_ROUTINES = MESH_T + MESH_MZ + MESH_COMPACT
-SYMM_ROUTINES = ["takagi", "graph_embed", "bipartite_graph_embed"]
+SYMM_ROUTINES = ["takagi", "graph_embed", "bipartite_graph_embed", "graph_embed_deprecated"]
 ALL_ROUTINES = UNITARY_ROUTINES + SYMM_ROUTINES + ["williamson", "bloch_messiah"]
 
 
@@ -162,7 +162,7 @@ def _check_diag(d, N, what):
     d = np.asarray(d)
     if d.shape != (N,):
         raise Bad("structure", "%s has shape %r, expected (%d,)" % (what, d.shape, N))
-    if not _finite(d) or np.abs(np.abs(d) - 1).max(initial=0) > 1e-8:
+    if not _finite(d) or np.abs(np.abs(d) - 1).max(initial=0) > 1e-10 + _SLACK[0]:
         raise Bad("diag-not-unit", "%s is not unit-modulus: %r" % (what, np.abs(d)))
 
 
@@ -285,16 +285,18 @@ def recompose(routine, res, N):
 
 
 # ------------------------------------------------------------------ the property's predicate on one case
-REC_TOL = 1e-8       # reconstruction, absolute, relative to max(1, |A|max)
-STRUCT_TOL = 1e-8    # unitarity / symplecticity of returned factors
-BM_TOL = 2e-7        # Bloch-Messiah rounds its singular values to 9 decimals by default
+_SLACK = [0.0]       # extra absolute tolerance while checking inputs that are deliberately inexact (guard sweeps)
+REC_TOL = 1e-10      # reconstruction, absolute, relative to max(1, |A|max)
+STRUCT_TOL = 1e-10   # unitarity / symplecticity of returned factors
+BM_TOL = 1e-9        # Bloch-Messiah rounds its singular values to 9 decimals by default
 
 
 def _scale(A):
     return max(1.0, float(np.abs(A).max(initial=0)))
 
 
-def _is_unitary(U, tol=STRUCT_TOL):
+def _is_unitary(U, tol=None):
+    tol = STRUCT_TOL + _SLACK[0] if tol is None else tol
     U = np.asarray(U)
     return U.ndim == 2 and U.shape[0] == U.shape[1] and _finite(U) and np.abs(U @ U.conj().T - np.eye(U.shape[0])).max(initial=0) <= tol
 
@@ -327,7 +329,7 @@ def valid_input(routine, A, opts):
         if defect >= 3 * tol + (opts.get("rtol", 1e-12) if routine in MESH_COMPACT else 0) * 3:
             return False
         return None
-    if routine in ("takagi", "graph_embed"):
+    if routine in ("takagi", "graph_embed", "graph_embed_deprecated"):
         asym = np.linalg.norm(A - A.T)
         tol = opts.get("tol", 1e-13) if routine == "takagi" else None
         if routine == "takagi":
@@ -375,7 +377,7 @@ def check_valid(routine, A, opts, res):
     if routine in UNITARY_ROUTINES:
         q = recompose(routine, res, N)
         err = np.abs(q - A).max(initial=0)
-        if not (err <= REC_TOL):
+        if not (err <= REC_TOL + _SLACK[0]):
             raise Bad("reconstruct", "factors multiply to a matrix differing from the input by %.3g" % err)
         if routine == "sun_compact":
             det = np.linalg.det(A)
@@ -389,12 +391,12 @@ def check_valid(routine, A, opts, res):
             raise Bad("structure", "shapes %r %r" % (rl.shape, U.shape))
         if np.iscomplexobj(rl) or not _finite(rl) or (rl < 0).any():
             raise Bad("values-negative", "Takagi values not real non-negative: %r" % rl)
-        if (np.diff(rl) > 1e-9 * _scale(A)).any():
+        if (np.diff(rl) > (1e-9 + _SLACK[0]) * _scale(A)).any():
             raise Bad("values-unordered", "Takagi values not in descending order: %r" % rl)
         if not _is_unitary(U):
             raise Bad("not-unitary", "Takagi U is not unitary (defect %.3g)" % np.abs(U @ U.conj().T - np.eye(N)).max())
         err = np.abs(U @ np.diag(rl) @ U.T - A).max(initial=0)
-        if not (err <= REC_TOL * _scale(A)):
+        if not (err <= (REC_TOL + _SLACK[0] + 10.0 ** (-opts.get("rounding", 13))) * _scale(A)):
             raise Bad("reconstruct", "U diag(rl) U^T differs from N by %.3g" % err)
         return
     if routine == "graph_embed":
@@ -411,12 +413,32 @@ def check_valid(routine, A, opts, res):
         B = U @ np.diag(s) @ U.T
         # proportionality with a positive constant
         k = np.vdot(At, B).real / max(np.vdot(At, At).real, 1e-300)
-        if not (k > 0) or np.abs(B - k * At).max() > 1e-7 * max(1.0, k * np.abs(At).max()):
+        if not (k > 0) or np.abs(B - k * At).max() > (1e-7 + _SLACK[0]) * max(1.0, k * np.abs(At).max()):
             raise Bad("not-proportional", "U tanh(r) U^T is not a positive multiple of A (k=%.6g, err %.3g)" % (k, np.abs(B - k * At).max()))
         nbar = np.sum(np.sinh(vals) ** 2) / N
         want = opts.get("mean_photon_per_mode", 1.0)
         if abs(nbar - want) > 1e-4 * max(1, want):   # the scaling root is found by thewalrus.adj_scaling (library tolerance)
             raise Bad("mean-photon", "mean photon number per mode %.9g, requested %.9g" % (nbar, want))
+        return
+    if routine == "graph_embed_deprecated":
+        vals, U = res
+        vals = np.asarray(vals)
+        if vals.shape != (N,) or np.iscomplexobj(vals) or not _finite(vals):
+            raise Bad("structure", "squeezing values %r" % vals)
+        if not _is_unitary(U):
+            raise Bad("not-unitary", "interferometer is not unitary")
+        At = A - np.trace(A) * np.eye(N) / N if opts.get("make_traceless") else A
+        s = np.tanh(-vals)
+        if (s < -1e-12).any() or (np.diff(s) > 1e-9).any():
+            raise Bad("values-unordered", "tanh(r) not non-negative descending: %r" % s)
+        B = U @ np.diag(s) @ U.T
+        k = np.vdot(At, B).real / max(np.vdot(At, At).real, 1e-300)
+        if not (k > 0) or np.abs(B - k * At).max() > (1e-7 + _SLACK[0]) * max(1.0, k * np.abs(At).max()):
+            raise Bad("not-proportional", "U tanh(r) U^T is not a positive multiple of A (k=%.6g, err %.3g)" % (k, np.abs(B - k * At).max()))
+        want = opts.get("max_mean_photon", 1.0)
+        got = np.sinh(vals[0]) ** 2
+        if abs(got - want) > 1e-8 * max(1, want):
+            raise Bad("max-mean-photon", "largest mean photon number %.9g, requested %.9g" % (got, want))
         return
     if routine == "bipartite_graph_embed":
         vals, U, V = res
@@ -430,7 +452,7 @@ def check_valid(routine, A, opts, res):
             raise Bad("values-unordered", "tanh(r) not non-negative descending: %r" % s)
         B = U @ np.diag(s) @ V.T
         k = np.vdot(A, B).real / max(np.vdot(A, A).real, 1e-300)
-        if not (k > 0) or np.abs(B - k * A).max() > 1e-7 * max(1.0, k * np.abs(A).max()):
+        if not (k > 0) or np.abs(B - k * A).max() > (1e-7 + _SLACK[0]) * max(1.0, k * np.abs(A).max()):
             raise Bad("not-proportional", "U tanh(r) V^T is not a positive multiple of A (k=%.6g, err %.3g)" % (k, np.abs(B - k * A).max()))
         nbar = np.sum(np.sinh(vals) ** 2) / N
         want = opts.get("mean_photon_per_mode", 1.0)
@@ -446,14 +468,14 @@ def check_valid(routine, A, opts, res):
         if np.abs(Db - np.diag(np.diag(Db))).max() > 0:
             raise Bad("Db-not-diagonal", "Db is not diagonal")
         nu = np.diag(Db)
-        if (nu <= 0).any() or np.abs(nu[:n] - nu[n:]).max() > 1e-8 * _scale(nu):
+        if (nu <= 0).any() or np.abs(nu[:n] - nu[n:]).max() > (1e-10 + _SLACK[0]) * _scale(nu) * max(1.0, np.linalg.cond(A) ** 0.5):
             raise Bad("Db-structure", "Db is not diag(nu, nu) with nu > 0: %r" % nu)
         sc = _scale(A)
         # convention actually used by the library, its tests and ops.Gaussian: V = S Db S^T (the docstring says S^T Db S)
-        if not _is_symplectic(S.T, 1e-7 * max(1.0, np.linalg.cond(A) ** 0.5)):
+        if not _is_symplectic(S.T, (1e-10 + _SLACK[0]) * max(1.0, np.linalg.cond(A) ** 0.5)):
             raise Bad("not-symplectic", "S is not symplectic (defect %.3g)" % np.abs(S @ sympmat(n) @ S.T - sympmat(n)).max())
         err = np.abs(S @ Db @ S.T - A).max()
-        if not (err <= 1e-7 * sc * max(1.0, np.linalg.cond(A) ** 0.5)):
+        if not (err <= (1e-10 + _SLACK[0]) * sc * max(1.0, np.linalg.cond(A) ** 0.5)):
             raise Bad("reconstruct", "S Db S^T differs from V by %.3g" % err)
         return
     if routine == "bloch_messiah":
@@ -463,7 +485,7 @@ def check_valid(routine, A, opts, res):
             if X.shape != (N, N) or np.iscomplexobj(X) or not _finite(X):
                 raise Bad("structure", "shape/dtype %r" % (X.shape,))
         sc = _scale(A)
-        tol = BM_TOL * sc
+        tol = (BM_TOL + _SLACK[0]) * sc
         for nm, O in (("O1", O1), ("O2", O2)):
             if np.abs(O @ O.T - np.eye(N)).max() > tol:
                 raise Bad("not-orthogonal", "%s is not orthogonal (defect %.3g)" % (nm, np.abs(O @ O.T - np.eye(N)).max()))
@@ -479,32 +501,11 @@ def check_valid(routine, A, opts, res):
         err = np.abs(O1 @ D @ O2 - A).max()
         if not (err <= tol * sc):
             raise Bad("reconstruct", "O1 D O2 differs from S by %.3g" % err)
+        # documented convention: a passive S is returned as the first factor, the other two are the identity
+        if np.linalg.norm(A.T @ A - np.eye(N)) < 0.3 * opts.get("tol", 1e-10) and max(np.abs(D - np.eye(N)).max(), np.abs(O2 - np.eye(N)).max()) > tol:
+            raise Bad("passive-convention", "passive S: squeezing / second orthogonal factor are not the identity")
         return
     raise KeyError(routine)
-
-
-def sun_near_unit_column(U):
-    """True iff the first column of U, or of one of the successive blocks left after rotating that column onto e_0
-    (stable Givens rotations, computed here), has an entry whose modulus is within 3e-12 of 1 while the rest of the
-    column is still larger than 5e-9.  sun_compact decides its 'single non-zero entry' special cases with
-    |x| ~ 1 at rtol = atol = 1e-12 and then drops the rest of the column, which can be as large as sqrt(2 * 2e-12) = 2e-6."""
-    V = np.array(U, dtype=complex)
-    while V.shape[0] >= 2:
-        m = V.shape[0]
-        mod = np.abs(V[:, 0])
-        k = int(mod.argmax())
-        rest = math.sqrt(float(np.sum(np.delete(mod, k) ** 2)))
-        if 1 - mod[k] <= 3e-12 and rest > 5e-9:
-            return True
-        for i in range(m - 1, 0, -1):
-            a, b = V[i - 1, 0], V[i, 0]
-            r = math.hypot(abs(a), abs(b))
-            if abs(b) < 1e-12:
-                continue
-            G = np.array([[np.conj(a), np.conj(b)], [-b, a]]) / r
-            V[i - 1:i + 1, :] = G @ V[i - 1:i + 1, :]
-        V = V[1:, 1:]
-    return False
 
 
 def _rounding_split(vals, decimals, rounded=False):
@@ -525,12 +526,6 @@ def input_class(routine, A, kind, res=None):
     """Class of the input used in signatures: the generator's kind, refined where one kind mixes mechanisms."""
     A = np.asarray(A)
     square = A.ndim == 2 and A.shape[0] == A.shape[1] and _finite(A)
-    if routine == "sun_compact" and kind not in UNITARY_BAD and kind != "too-small" and square:
-        if A.shape[0] >= 3 and sun_near_unit_column(A):
-            return "near-unit-column"
-        mod = np.abs(A)
-        if ((mod > 1e-9) & (mod < 2e-5)).any():
-            return "tiny-entry"      # _su2_parameters treats |U[0,1]| within 1e-10 of 1 as 1 and drops |U[0,0]| < 1.4e-5
     if routine in SYMM_ROUTINES and square and res is not None:
         # singular values returned by takagi's complex branch are rounded to 13 decimals and were grouped by that rounding
         try:
@@ -543,6 +538,11 @@ def input_class(routine, A, kind, res=None):
             pass
     if routine == "takagi" and square and np.iscomplexobj(A) and _rounding_split(np.linalg.svd(A, compute_uv=False), 13):
         return "rounding-boundary"
+    if routine == "bloch_messiah" and square and np.isrealobj(A) and kind not in SYMP_BAD and kind not in ("near-passive", "mixed-degenerate"):
+        sv = np.sort(np.linalg.svd(A, compute_uv=False))
+        gaps = np.diff(sv) / sv[1:]
+        if ((gaps > 1e-11) & (gaps < 1e-5)).any():
+            return "near-degenerate"      # same weakness as the recorded near-passive finding: nearly equal singular values
     if routine == "bloch_messiah" and square and np.isrealobj(A) and kind not in SYMP_BAD:
         if _rounding_split(np.linalg.svd(A, compute_uv=False), 9):
             return "rounding-boundary"
@@ -970,7 +970,15 @@ def gen_case(rng, routine=None, bad_fraction=0.2, max_n=7):
                 A = np.ones((1, 1))
         else:
             A = gen_symmetric(rs, kind, n)
-        if routine != "takagi":
+        if routine == "graph_embed_deprecated":
+            if rng.random() < 0.7:
+                opts["max_mean_photon"] = rng.choice([0.1, 0.5, 1.0, 2.5])
+            if rng.random() < 0.3:
+                opts["make_traceless"] = True
+        elif routine == "takagi":
+            if rng.random() < 0.25 and not bad:
+                opts["rounding"] = rng.choice([13, 10, 8])
+        else:
             if rng.random() < 0.7:
                 opts["mean_photon_per_mode"] = rng.choice([0.1, 0.5, 1.0, 2.5])
             if routine == "graph_embed" and rng.random() < 0.3:
@@ -1241,6 +1249,404 @@ def correspondence(ctx):
     ctx.obligation("correspondence:mesh:divergence-rate", diverged <= max(3, 0.1 * len(cases) * 5), "%d diverged" % diverged)
 
 
+# ------------------------------------------------------------------ validation guards: just inside / just outside the tolerance
+def guard_ratio(routine, A, opts):
+    """(the routine's documented validity measure of A) / (its tolerance): <= 1 means 'valid' by the documentation."""
+    A = np.asarray(A)
+    n = A.shape[0]
+    if routine in MESH_T + MESH_MZ:
+        return np.abs(A @ A.conj().T - np.eye(n)).max() / opts.get("tol", 1e-11)
+    if routine in MESH_COMPACT:
+        rt, at = opts.get("rtol", 1e-12), opts.get("atol", 1e-12)
+        return (np.abs(A @ A.conj().T - np.eye(n)) / (at + rt * np.eye(n))).max()
+    if routine == "takagi":
+        return np.linalg.norm(A - A.T) / opts.get("tol", 1e-13)
+    if routine in ("graph_embed", "graph_embed_deprecated", "bipartite_graph_embed"):
+        rt, at = opts.get("rtol", 1e-5), opts.get("atol", 1e-8)
+        return (np.abs(A - A.T) / (at + rt * np.abs(A.T))).max()
+    if routine == "williamson":
+        return np.linalg.norm(A - A.T) / opts.get("tol", 1e-11)
+    if routine == "bloch_messiah":
+        Om = sympmat(n // 2)
+        return np.linalg.norm(A.T @ Om @ A - Om) / opts.get("tol", 1e-10)
+    raise KeyError(routine)
+
+
+def perturb_to_ratio(routine, X, E, opts, target):
+    """X + t E with guard_ratio == target (bisection on a log scale); None if not reachable."""
+    f = lambda t: guard_ratio(routine, X + t * E, opts)
+    lo, hi = 1e-18, 1e-18
+    for _ in range(80):
+        if f(hi) >= target:
+            break
+        lo, hi = hi, hi * 4
+    else:
+        return None
+    if f(lo) >= target:
+        return None
+    for _ in range(60):
+        mid = math.sqrt(lo * hi)
+        if f(mid) >= target:
+            hi = mid
+        else:
+            lo = mid
+    A = X + hi * E
+    r = f(hi)
+    return A if 0.9 * target <= r <= 1.2 * target else None
+
+
+GUARD_OPTS = {
+    "rectangular": [{}, {"tol": 1e-8}, {"tol": 1e-4}],
+    "rectangular_phase_end": [{}, {"tol": 1e-8}, {"tol": 1e-4}],
+    "rectangular_MZ": [{}, {"tol": 1e-8}, {"tol": 1e-4}],
+    "rectangular_symmetric": [{}, {"tol": 1e-8}, {"tol": 1e-4}],
+    "triangular": [{}, {"tol": 1e-8}, {"tol": 1e-4}],
+    "triangular_compact": [{}, {"rtol": 1e-9, "atol": 1e-9}, {"atol": 1e-7}, {"rtol": 1e-7}],
+    "rectangular_compact": [{}, {"rtol": 1e-9, "atol": 1e-9}, {"atol": 1e-7}, {"rtol": 1e-7}],
+    "sun_compact": [{}, {"rtol": 1e-9, "atol": 1e-9}, {"atol": 1e-7}, {"rtol": 1e-7}],
+    "takagi": [{}, {"tol": 1e-9}, {"tol": 1e-5}],
+    "graph_embed": [{}, {"rtol": 0.0, "atol": 1e-6}, {"rtol": 0.0, "atol": 1e-10}, {"rtol": 1e-3, "atol": 0.0}],
+    "graph_embed_deprecated": [{}, {"rtol": 0.0, "atol": 1e-6}, {"rtol": 0.0, "atol": 1e-10}],
+    "williamson": [{}, {"tol": 1e-8}, {"tol": 1e-4}],
+    "bloch_messiah": [{}, {"tol": 1e-7}, {"tol": 1e-4}],
+    # no invalid square inputs: an almost symmetric matrix on either side of the internal symmetry test must be decomposed
+    "bipartite_graph_embed": [{}, {"rtol": 0.0, "atol": 1e-6}, {"rtol": 0.0, "atol": 1e-10}],
+}
+# routines whose inexact-but-inside-tolerance inputs must still be decomposed (to an accuracy of the order of the inexactness);
+# the compact meshes end with an exact self-check and may legitimately fail on inexact input
+GUARD_INSIDE = set(MESH_T + MESH_MZ + ["takagi", "graph_embed", "graph_embed_deprecated", "williamson", "bloch_messiah", "bipartite_graph_embed"])
+
+
+def guard_base(rs, routine, n):
+    """(X valid base input, list of perturbation directions E)."""
+    if routine in UNITARY_ROUTINES:
+        n = max(n, 3) if routine == "sun_compact" else n
+        X = haar(n, rs) if rs.rand() < 0.7 else np.asarray(gen_unitary(rs, rs.choice(["identity", "permutation", "diagonal", "block"]), n), dtype=complex)
+        r = rs.randint(n)
+        E_row = np.zeros((n, n), dtype=complex); E_row[r] = X[r]                     # one row mis-normalised
+        E_el = np.zeros((n, n), dtype=complex); E_el[rs.randint(n), rs.randint(n)] = np.exp(1j * rs.uniform(0, 6))
+        return X, [rs.randn(n, n) + 1j * rs.randn(n, n), E_row, E_el, X.copy()]
+    if routine in ("takagi", "graph_embed", "graph_embed_deprecated", "bipartite_graph_embed"):
+        n = max(n, 2)
+        B = rs.randn(n, n) + (1j * rs.randn(n, n) if rs.rand() < 0.6 else 0)
+        X = B + B.T
+        R = rs.randn(n, n)
+        E_pair = np.zeros((n, n)); i, j = rs.choice(n, 2, replace=False); E_pair[i, j] = 1.0
+        return X, [R - R.T, E_pair]
+    if routine == "williamson":
+        X = gen_cov(rs, rs.choice(["random", "degenerate", "thermal-diag", "vacuum"]), n)
+        R = rs.randn(2 * n, 2 * n)
+        E_pair = np.zeros((2 * n, 2 * n)); E_pair[0, -1] = 1.0
+        return X, [R - R.T, E_pair]
+    if routine == "bloch_messiah":
+        # well-separated squeezing values only: perturbing a degenerate / passive matrix gives the recorded near-degenerate defect
+        X = gen_symp(rs, rs.choice(["random", "diagonal-squeezer"]), n)
+        E_el = np.zeros((2 * n, 2 * n)); E_el[rs.randint(2 * n), rs.randint(2 * n)] = 1.0
+        return X, [rs.randn(2 * n, 2 * n), X.copy(), E_el]
+    raise KeyError(routine)
+
+
+def evaluate_guard(case):
+    """case: {check:'guard', routine, opts, matrix, expect:'accept'|'reject', slack}.  Returns failure (sig, msg) or None."""
+    routine, opts = case["routine"], dict(case.get("opts", {}))
+    A = mat_from_json(case["matrix"])
+    tag = "default" if not opts else "+".join(sorted(opts))
+    try:
+        res = call_routine(routine, A, opts)
+    except Exception as e:  # noqa: BLE001
+        if case["expect"] == "accept":
+            return ("%s:guard:rejects-inside-tol:%s" % (routine, tag),
+                    "input whose documented validity measure is %.2g x the tolerance (%s) raised %s: %s" % (case["ratio"], opts or "defaults", type(e).__name__, str(e)[:120]))
+        return None
+    if case["expect"] == "reject":
+        return ("%s:guard:accepts-outside-tol:%s" % (routine, tag),
+                "input whose documented validity measure is %.3g x the tolerance (%s) was accepted instead of raising" % (case["ratio"], opts or "defaults"))
+    old = _SLACK[0]
+    _SLACK[0] = float(case.get("slack", 0.0))
+    try:
+        check_valid(routine, A, opts, res)
+    except Bad as b:
+        return ("%s:guard:inside-tol:%s:%s" % (routine, b.sig, tag), "input inside the tolerance (%s) decomposed wrongly: %s" % (opts or "defaults", b.msg))
+    except Exception as e:  # noqa: BLE001
+        return ("%s:guard:inside-tol:malformed:%s" % (routine, tag), "input inside the tolerance gave malformed factors (%s)" % type(e).__name__)
+    finally:
+        _SLACK[0] = old
+    return None
+
+
+def guard_sweep(ctx):
+    rs = np.random.RandomState(ctx.rng.getrandbits(32))
+    reps = ctx.budget(1, 4)
+    for routine, optlist in GUARD_OPTS.items():
+        for opts in optlist:
+            for rep in range(reps):
+                n = rs.randint(1, 5) if routine in UNITARY_ROUTINES else rs.randint(1, 4)
+                X, Es = guard_base(rs, routine, n)
+                for E in Es:
+                    for target, expect in ((0.1, "accept"), (10.0, "reject"), (300.0, "reject")):
+                        if routine == "bipartite_graph_embed":
+                            expect = "accept"
+                        if expect == "accept" and routine not in GUARD_INSIDE:
+                            continue
+                        A = perturb_to_ratio(routine, X, E, opts, target)
+                        if A is None:
+                            continue
+                        delta = float(np.abs(A - X).max())
+                        if expect == "accept" and delta > 1e-3:
+                            continue
+                        case = {"check": "guard", "routine": routine, "opts": opts, "expect": expect, "ratio": target,
+                                "slack": 200.0 * (A.shape[0] + 1) * delta, "matrix": mat_to_json(A)}
+                        ctx.case({"check": "guard", "routine": routine, "opts": opts, "expect": expect, "ratio": target, "n": int(A.shape[0]),
+                                  "h": hash(tuple(str(v) for v in case["matrix"]["re"])) & 0xffffffff}, nontrivial=True, bucket="guard/%s/%s" % (routine, expect))
+                        fail = evaluate_guard(case)
+                        if fail:
+                            ctx.counterexample(fail[0], fail[1], case)
+
+
+# ------------------------------------------------------------------ element matrices, nulling helpers, private helpers
+def _raises(fn, *a, **k):
+    try:
+        fn(*a, **k)
+    except Exception as e:  # noqa: BLE001
+        return type(e).__name__
+    return None
+
+
+def evaluate_helper(case):
+    """case: {check:'helper', name, ...}.  Returns failure (sig, msg) or None."""
+    d = dec()
+    name = case["name"]
+    if name in ("T", "Ti", "mach_zehnder", "mach_zehnder_inv"):
+        m, n, a, b, N = case["m"], case["n"], case["a"], case["b"], case["N"]
+        got = getattr(d, name)(m, n, a, b, N)
+        want = {"T": lambda: Tm(m, n, a, b, N), "Ti": lambda: Tm(m, n, a, b, N).conj().T,
+                "mach_zehnder": lambda: MZm(m, n, a, b, N), "mach_zehnder_inv": lambda: MZm(m, n, a, b, N).conj().T}[name]()
+        err = np.abs(np.asarray(got) - want).max()
+        if not err <= 1e-12:
+            return ("%s:matrix" % name, "%s(%d, %d, %.6g, %.6g, %d) differs from its documented matrix by %.3g" % (name, m, n, a, b, N, err))
+        return None
+    if name in ("M", "P"):
+        if name == "M":
+            got, want = d.M(case["n"], case["a"], case["b"], case["N"]), sMZm(case["n"], case["a"], case["b"], case["N"])
+        else:
+            got, want = d.P(case["n"], case["a"], case["N"]), Pm(case["n"], case["a"], case["N"])
+        err = np.abs(np.asarray(got) - want).max()
+        if not err <= 1e-12:
+            return ("%s:matrix" % name, "%s differs from its documented matrix by %.3g" % (name, err))
+        return None
+    if name in ("nullTi", "nullT", "nullMZi", "nullMZ"):
+        U = mat_from_json(case["matrix"])
+        i, j = case["i"], case["j"]
+        if U.shape[0] != U.shape[1]:
+            if _raises(getattr(d, name), i, j, U) is None:
+                return ("%s:non-square-accepted" % name, "%s accepted a non-square matrix" % name)
+            return None
+        p = getattr(d, name)(i, j, U)
+        N = U.shape[0]
+        el = Tm if name in ("nullTi", "nullT") else MZm
+        if name in ("nullTi", "nullMZi"):          # element (i, j) of U @ X^{-1}, X on modes (j, j+1)
+            if [int(p[0]), int(p[1]), p[4]] != [j, j + 1, N]:
+                return ("%s:indices" % name, "%s(%d, %d) returned modes %r" % (name, i, j, p[:2]))
+            val = (U @ el(j, j + 1, p[2], p[3], N).conj().T)[i, j]
+        else:                                      # element (i, j) of X @ U, X on modes (i-1, i)
+            if [int(p[0]), int(p[1]), p[4]] != [i - 1, i, N]:
+                return ("%s:indices" % name, "%s(%d, %d) returned modes %r" % (name, i, j, p[:2]))
+            val = (el(i - 1, i, p[2], p[3], N) @ U)[i, j]
+        if not abs(val) <= 1e-12 * max(1.0, np.abs(U).max()):
+            return ("%s:not-nulled:%s" % (name, case.get("kind")), "%s(%d, %d, U): the element it should null is %.3g after applying the returned element" % (name, i, j, abs(val)))
+        return None
+    if name == "_su2_parameters":
+        U = mat_from_json(case["matrix"])
+        kw = dict(case.get("opts", {}))
+        exp = case["expect"]
+        try:
+            a, b, g = d._su2_parameters(U, **kw)
+        except Exception as e:  # noqa: BLE001
+            return ("_su2_parameters:rejects-valid:%s" % case.get("kind"), "valid SU(2) input raised %s" % type(e).__name__) if exp == "accept" else None
+        if exp == "reject":
+            return ("_su2_parameters:accepts-invalid:%s" % case.get("kind"), "invalid input (%s) was accepted" % case.get("kind"))
+        err = np.abs(su2m(0, 1, a, b, g, 2) - U).max()
+        if not err <= 1e-9 + float(case.get("slack", 0)):
+            return ("_su2_parameters:reconstruct:%s" % case.get("kind"), "SU(2) parameters reproduce the matrix only to %.3g" % err)
+        return None
+    if name == "_su3_parameters":
+        U = mat_from_json(case["matrix"])
+        exp = case["expect"]
+        try:
+            ps = d._su3_parameters(U)
+        except Exception as e:  # noqa: BLE001
+            return ("_su3_parameters:rejects-valid:%s" % case.get("kind"), "valid SU(3) input raised %s" % type(e).__name__) if exp == "accept" else None
+        if exp == "reject":
+            return ("_su3_parameters:accepts-invalid:%s" % case.get("kind"), "invalid input (%s) was accepted" % case.get("kind"))
+        Q = su2m(1, 2, *ps[0], 3) @ su2m(0, 1, *ps[1], 3) @ su2m(1, 2, *ps[2], 3)
+        err = np.abs(Q - U).max()
+        if not err <= 1e-9:
+            return ("_su3_parameters:reconstruct:%s" % case.get("kind"), "SU(3) parameters reproduce the matrix only to %.3g" % err)
+        return None
+    if name == "_build_staircase":
+        U = mat_from_json(case["matrix"])
+        N = U.shape[0]
+        tr, newU = d._build_staircase(U)
+        newU = np.asarray(newU)
+        e0 = np.zeros(N); e0[0] = 1
+        if len(tr) != N - 1 or np.abs(newU[:, 0] - e0).max() > 1e-9 or np.abs(newU[0, :] - e0).max() > 1e-9:
+            return ("_build_staircase:first-column:%s" % case.get("kind"), "staircase does not reduce the first column to e_0 (%d transformations, residual %.3g)" % (len(tr), np.abs(newU[:, 0] - e0).max()))
+        # the returned transformations are the inverse rotations: prod SU2(modes N-2..0) applied to newU gives back U
+        # tr[k] are the parameters of the rotation on modes (N-2-k, N-1-k):  U = R(tr[0]) ... R(tr[N-2]) newU
+        Q = newU.astype(complex)
+        for k in range(N - 2, -1, -1):
+            Q = su2m(N - 2 - k, N - 1 - k, tr[k][0], tr[k][1], tr[k][2], N) @ Q
+        err = np.abs(Q - U).max()
+        if not err <= 1e-9:
+            return ("_build_staircase:reconstruct:%s" % case.get("kind"), "staircase rotations times the remainder differ from the input by %.3g" % err)
+        if not _is_unitary(newU[1:, 1:], 1e-9):
+            return ("_build_staircase:remainder-not-unitary:%s" % case.get("kind"), "remaining block is not unitary")
+        return None
+    if name in ("covmat_to_hamil", "hamil_to_covmat"):
+        A = mat_from_json(case["matrix"])
+        exp = case["expect"]
+        try:
+            got = getattr(d, name)(A)
+        except Exception as e:  # noqa: BLE001
+            return ("%s:rejects-valid" % name, "valid input raised %s" % type(e).__name__) if exp == "accept" else None
+        if exp == "reject":
+            return ("%s:accepts-invalid:%s" % (name, case.get("kind")), "invalid input (%s) accepted" % case.get("kind"))
+        want = mat_from_json(case["want"])
+        err = np.abs(np.asarray(got) - want).max()
+        if not err <= 1e-7 * max(1.0, np.abs(want).max()) * max(1.0, np.linalg.cond(A)):
+            return ("%s:value" % name, "%s differs from S^-T arctanh(1/nu) S^-1 (resp. its inverse) by %.3g" % (name, err))
+        return None
+    raise KeyError(name)
+
+
+def helper_cases(rs, reps):
+    """Deterministic sweep + random cases for the public element / nulling helpers and the private SU(n) helpers."""
+    out = []
+    angles = NICE_ANGLES + [2 * math.pi, -2.2, 5.0]
+    for name in ("T", "Ti", "mach_zehnder", "mach_zehnder_inv"):
+        for _ in range(4 * reps):
+            N = rs.randint(2, 7)
+            m, n = rs.choice(N, 2, replace=False)
+            a = angles[rs.randint(len(angles))] if rs.rand() < 0.5 else rs.uniform(-4, 7)
+            b = angles[rs.randint(len(angles))] if rs.rand() < 0.5 else rs.uniform(-4, 7)
+            out.append({"check": "helper", "name": name, "m": int(m), "n": int(n), "a": float(a), "b": float(b), "N": int(N)})
+    for _ in range(4 * reps):
+        N = rs.randint(2, 7)
+        out.append({"check": "helper", "name": "M", "n": int(rs.randint(N - 1)), "a": float(rs.uniform(-4, 7)), "b": float(rs.uniform(-4, 7)), "N": int(N)})
+        out.append({"check": "helper", "name": "P", "n": int(rs.randint(N)), "a": float(rs.uniform(-4, 7)), "N": int(N)})
+    for name in ("nullTi", "nullT", "nullMZi", "nullMZ"):
+        for kind in ("dense", "unitary", "target-zero", "neighbour-zero", "both-zero", "real", "non-square"):
+            for _ in range(reps):
+                N = rs.randint(2, 6)
+                U = haar(N, rs) if kind == "unitary" else (rs.randn(N, N) + (0 if kind == "real" else 1j * rs.randn(N, N)))
+                if name in ("nullTi", "nullMZi"):
+                    j = rs.randint(N - 1); i = rs.randint(N)         # columns (j, j+1), any row
+                    if kind in ("target-zero", "both-zero"):
+                        U[i, j] = 0
+                    if kind in ("neighbour-zero", "both-zero"):
+                        U[i, j + 1] = 0
+                else:
+                    i = rs.randint(1, N); j = rs.randint(N)          # rows (i-1, i), any column
+                    if kind in ("target-zero", "both-zero"):
+                        U[i, j] = 0
+                    if kind in ("neighbour-zero", "both-zero"):
+                        U[i - 1, j] = 0
+                if kind == "non-square":
+                    U = np.hstack([U, U[:, :1]])
+                out.append({"check": "helper", "name": name, "kind": kind, "i": int(i), "j": int(j), "matrix": mat_to_json(U)})
+    # _su2_parameters
+    for kind in ("generic", "diagonal", "antidiagonal", "identity", "tiny-offdiag", "tiny-diag", "phase-off", "wrong-shape", "det-inside-tol", "det-outside-tol"):
+        for _ in range(reps):
+            a, b, g = rs.uniform(-3, 3), rs.uniform(0, math.pi), rs.uniform(-3, 3)
+            if kind == "diagonal":
+                b = 0.0
+            if kind == "antidiagonal":
+                b = math.pi
+            if kind == "identity":
+                a = b = g = 0.0
+            if kind == "tiny-offdiag":
+                b = 10.0 ** rs.uniform(-9, -4)
+            if kind == "tiny-diag":
+                b = math.pi - 10.0 ** rs.uniform(-9, -4)
+            U = su2m(0, 1, a, b, g, 2)
+            case = {"check": "helper", "name": "_su2_parameters", "kind": kind, "expect": "accept", "opts": {}}
+            if kind == "phase-off":
+                U = U * np.exp(1j * rs.choice([0.1, -0.7, 1e-4, math.pi / 2])); case["expect"] = "reject"
+            if kind == "wrong-shape":
+                U = haar(3, rs); U = U / np.linalg.det(U) ** (1 / 3); case["expect"] = "reject"
+            if kind == "det-inside-tol":
+                tol = float(rs.choice([1e-10, 1e-6])); U = U * np.exp(0.5j * 0.1 * tol); case["opts"] = {} if tol == 1e-10 else {"tol": tol}; case["slack"] = tol
+            if kind == "det-outside-tol":
+                tol = float(rs.choice([1e-10, 1e-6])); U = U * np.exp(0.5j * 10 * tol); case["opts"] = {} if tol == 1e-10 else {"tol": tol}; case["expect"] = "reject"
+            case["matrix"] = mat_to_json(U)
+            out.append(case)
+    # _su3_parameters / _build_staircase
+    for kind in ("generic", "x-one", "x-unit-modulus", "x-zero", "z-zero", "y-zero", "permutation", "real", "det-off", "wrong-shape"):
+        for _ in range(reps):
+            U = haar(3, rs)
+            if kind == "x-one":
+                U = bdiag(np.eye(1), haar(2, rs))
+            if kind == "x-unit-modulus":
+                U = bdiag(haar(1, rs), haar(2, rs))
+            if kind == "x-zero":
+                V = haar(2, rs); U = np.zeros((3, 3), dtype=complex); U[1:, 0] = V[:, 0]; U[1:, 1] = V[:, 1]; U[0, 2] = 1; 
+            if kind == "z-zero":
+                U = bdiag(haar(2, rs), np.eye(1)) @ bdiag(np.eye(1), haar(2, rs))
+            if kind == "y-zero":
+                U = (bdiag(haar(2, rs), np.eye(1)) @ bdiag(np.eye(1), haar(2, rs)))[[0, 2, 1], :]
+            if kind == "permutation":
+                U = np.eye(3, dtype=complex)[rs.permutation(3)]
+            if kind == "real":
+                U = np.asarray(gen_unitary(rs, "real-orthogonal", 3), dtype=complex)
+            det = np.linalg.det(U)
+            U = U / det ** (1.0 / 3)
+            case = {"check": "helper", "name": "_su3_parameters", "kind": kind, "expect": "accept"}
+            if kind == "det-off":
+                U = U * np.exp(0.2j); case["expect"] = "reject"
+            if kind == "wrong-shape":
+                U = haar(4, rs); U = U / np.linalg.det(U) ** 0.25; case["expect"] = "reject"
+            case["matrix"] = mat_to_json(U)
+            out.append(case)
+    for kind in ("haar", "embedded", "phase-permutation", "sparse", "block", "diagonal", "tiny-rotation"):
+        for _ in range(reps):
+            N = rs.randint(4, 7)
+            U = np.asarray(gen_unitary(rs, kind, N), dtype=complex)
+            U = U / np.linalg.det(U) ** (1.0 / N)
+            out.append({"check": "helper", "name": "_build_staircase", "kind": kind, "matrix": mat_to_json(U)})
+    # covmat <-> hamiltonian
+    for _ in range(2 * reps):
+        n = rs.randint(1, 4)
+        nu = rs.uniform(1.2, 4.0, n)
+        S = rand_symplectic(n, rs) if rs.rand() < 0.7 else np.eye(2 * n)
+        Si = np.linalg.inv(S)
+        V = _sym(S @ np.diag(np.concatenate([nu, nu])) @ S.T)
+        H = _sym(Si.T @ np.diag(np.arctanh(1 / np.concatenate([nu, nu]))) @ Si)
+        out.append({"check": "helper", "name": "covmat_to_hamil", "expect": "accept", "matrix": mat_to_json(V), "want": mat_to_json(H)})
+        out.append({"check": "helper", "name": "hamil_to_covmat", "expect": "accept", "matrix": mat_to_json(H), "want": mat_to_json(V)})
+        for nm, X in (("covmat_to_hamil", V), ("hamil_to_covmat", H)):
+            Xa = X.copy(); Xa[0, -1] += 1e-3
+            out.append({"check": "helper", "name": nm, "kind": "asymmetric", "expect": "reject", "matrix": mat_to_json(Xa)})
+            out.append({"check": "helper", "name": nm, "kind": "non-square", "expect": "reject", "matrix": mat_to_json(X[:, :-1])})
+            Xn = X - (np.linalg.eigvalsh(X).min() + 0.1) * np.eye(2 * n)
+            out.append({"check": "helper", "name": nm, "kind": "indefinite", "expect": "reject", "matrix": mat_to_json(Xn)})
+    return out
+
+
+def helper_checks(ctx):
+    rs = np.random.RandomState(ctx.rng.getrandbits(32))
+    for case in helper_cases(rs, ctx.budget(2, 8)):
+        small = {k: v for k, v in case.items() if k not in ("matrix", "want")}
+        if "matrix" in case:
+            small["h"] = hash(tuple(str(v) for v in case["matrix"]["re"])) & 0xffffffff
+        ctx.case(small, nontrivial=case.get("kind") not in (None, "dense", "generic", "haar"), bucket="helper/" + case["name"])
+        try:
+            fail = evaluate_helper(case)
+        except Exception as e:  # noqa: BLE001
+            fail = ("%s:raises:%s:%s" % (case["name"], type(e).__name__, case.get("kind")), "%s raised %r on a valid call" % (case["name"], e))
+        if fail:
+            ctx.counterexample(fail[0], fail[1], case)
+
+
 # ------------------------------------------------------------------ failing-input search on the implementation
 def _corpus_cases():
     import glob
@@ -1268,12 +1674,21 @@ def search(ctx):
     np.seterr(all="ignore")
     # corpus first (minimised past failures / recorded findings)
     for name, case in _corpus_cases():
+        if case.get("check") in ("guard", "helper"):
+            fail = evaluate_guard(case) if case["check"] == "guard" else evaluate_helper(case)
+            ctx.case({"corpus": name, "check": case["check"]}, nontrivial=True, bucket="corpus")
+            if fail:
+                ctx.counterexample(fail[0], fail[1], case)
+            continue
         if "routine" not in case:
             continue
         out, fail = evaluate(case)
         ctx.case({"corpus": name, "routine": case["routine"], "kind": case.get("kind"), "outcome": out}, nontrivial=True, bucket="corpus")
         if fail:
             _report(ctx, case, fail)
+    # deterministic families: validation guards just inside / outside every tolerance option; element, nulling and private helpers
+    guard_sweep(ctx)
+    helper_checks(ctx)
     n_cases = ctx.budget(2600, 40000)
     sun_dense = [0, 0, None]
     for i in range(n_cases):
@@ -1322,6 +1737,11 @@ def replay(ctx, data):
         bad = not bool(np.all((A == B) | (np.isnan(A) & np.isnan(B))))
         print("input modified:", bad)
         return bad
+    if case.get("check") in ("guard", "helper"):
+        fail = evaluate_guard(case) if case["check"] == "guard" else evaluate_helper(case)
+        print({k: v for k, v in case.items() if k not in ("matrix", "want")})
+        print("property predicate:", "FAILS - %s: %s" % fail if fail else "holds")
+        return fail is not None
     if "routine" not in case or "matrix" not in case:
         print("replay file names a broken obligation / model disagreement, not an input: %s" % data.get("what"))
         return False
